@@ -21,7 +21,8 @@ POPULATE = (("memo", 0, "s", None), ("memo", 1, "X", None), ("memo", 2, "t", "ov
 
 # "+damaged": the data object of one memoized call (key 0) was lost before the store is opened read-only
 VARIANTS = ["arg", "config", "cluster-config", "arg+cache", "cluster-config+cache", "mem", "arg+damaged", "cluster-config+cache+damaged",
-            "config-reused", "cluster-config-reused"]  # "-reused": the configuration dict object had already been used to build a backend
+            "config-reused", "cluster-config-reused",
+            "arg+linkbroken", "arg+cache+linkbroken"]  # "+linkbroken": the memento link of one call (key 0) was left empty by an interrupted write  # "-reused": the configuration dict object had already been used to build a backend
 
 _roots = {}
 
@@ -65,6 +66,17 @@ class RORun:
                 raise HarnessError("population failed: %s" % (bad,))
         w = self.w
         self.damaged = None
+        self.linkbroken = False
+        if "linkbroken" in variant:
+            sym, arg = KEYS[0]
+            h = storeh.refargs(sym, arg).arg_hash
+            links = [os.path.join(dp, f) for dp, _, fs in os.walk(w.mpath) for f in fs
+                     if f == h + ".memento.json.link" and dp.endswith("fn#1")]
+            if len(links) != 1:
+                raise HarnessError("cannot find the memento link of key 0: %s" % links)
+            open(links[0], "w").close()
+            self.damaged = 0
+            self.linkbroken = True
         if "damaged" in variant:
             ck = w.mem[0].content_key
             path = os.path.join(w.dpath, "c", ".versions", ck.version, ck.key.split("/", 1)[1])
@@ -165,7 +177,7 @@ class RORun:
                     elif modifier == "local":
                         f = f.force_local()
                     ki = next((i for i, (s, a) in enumerate(KEYS) if s == name + "#1" and a == arg), None)
-                    memoized = ki is not None and self.w.model.live(ki) and (ki != self.damaged or modifier == "ignore")
+                    memoized = ki is not None and self.w.model.live(ki) and (ki != self.damaged or (modifier == "ignore" and not self.linkbroken))
                     try:
                         got = f(arg)
                     except Exception as e:
@@ -195,6 +207,13 @@ class RORun:
                         else:
                             m.forget_cluster("vfc")
                         bad = ("not-rejected", "%s was accepted on a read-only store" % kind)
+                    except Exception:
+                        pass
+                elif self.linkbroken and kind in ("getm", "ism", "isall", "lsm", "lsf", "rmeta", "read") and (
+                        (kind in ("getm", "ism", "read", "rmeta") and op[1] == 0) or (kind == "isall" and 0 in op[1]) or kind in ("lsm", "lsf")):
+                    # whatever these answer about the half-written entry (absent, or an error) - they must not change the store
+                    try:
+                        self.w.step(op)
                     except Exception:
                         pass
                 elif kind == "read" and op[1] == self.damaged:
@@ -383,7 +402,7 @@ def run(ctx):
     ctx.rule = ("read-only: BFS over histories of storage ops (memoize, lookups, reads, listings, forget call/function/"
                 "everything, metadata writes plain/with-data) and function-level ops (calls of memoized and un-memoized "
                 "functions with modifiers, forget, forget_all, put_metadata, forget_cluster) on a pre-populated store "
-                "opened read-only in 6 ways (2 more with the data object of one call lost beforehand, 2 more from a configuration dict that was used before); oracle after each transition: no mutating audit event under the roots, tree "
+                "opened read-only in 6 ways (2 more with the data object of one call lost beforehand, 2 more with the memento link of one call left empty, 2 more from a configuration dict that was used before); oracle after each transition: no mutating audit event under the roots, tree "
                 "digest unchanged, reads answer as the model, writes skipped or rejected. null storage/runner: every "
                 "operation sequence to depth 3 (no merging). distinct = canonical (cache, ghost-entry) states and "
                 "distinct observation vectors.")
